@@ -28,7 +28,31 @@ def local_callees(f, body):
         for s in blk["stmts"]:
             if s["k"] == "assign" and s["rv"]["k"] == "agg" and s["rv"]["ak"] in ("closure", "coroutine"):
                 out.append(s["rv"]["def"])
+        # function items handed around as values (`eval_binary(ctx, l, r, add)`): they may be called through the value
+        for op in _operands(blk):
+            if op.get("k") == "const" and "fn" in op:
+                c = op["fn"]
+                p = c.get("resolved") or c.get("path")
+                if p in f.bodies and p not in out:
+                    out.append(p)
     return out
+
+
+def _operands(blk):
+    for s in blk["stmts"]:
+        if s["k"] != "assign":
+            continue
+        rv = s["rv"]
+        for k_ in ("op", "l", "r"):
+            if isinstance(rv.get(k_), dict):
+                yield rv[k_]
+        for o in rv.get("ops", []) or []:
+            if isinstance(o, dict):
+                yield o
+    t = blk["term"]
+    if t["k"] == "call":
+        for a in t["args"]:
+            yield a
 
 
 def reachable_local(f, roots):
@@ -131,7 +155,7 @@ def sym_fields(it, adt, variant, prefix):
 def is_value_op(f, path):
     """a synchronous local fn whose parameters are all Value (or &Index) and that returns Result<Value,_>"""
     b = f.bodies.get(path)
-    if not b or b["kind"] != "Fn" or b.get("coroutine_kind"):
+    if not b or b["kind"] not in ("Fn", "AssocFn") or b.get("coroutine_kind"):
         return False
     tys = [f.ty_s(b["locals"][i + 1]["ty"]) for i in range(b["arg_count"])]
     if not tys or not all(t in (VALUE, "&" + VALUE, "&" + INDEX) for t in tys) or not any(t in (VALUE, "&" + VALUE) for t in tys):
@@ -181,10 +205,19 @@ def operator_functions(f, disp):
     return ops
 
 
+def operand_order(f, path):
+    """canonical order of an operator function's parameters: the Value operands in declaration order, then the
+    rest (an index step) — so `index(value, step)` and `step.lookup(value)` are the same operator"""
+    b = f.bodies[path]
+    tys = [f.ty_s(b["locals"][i + 1]["ty"]) for i in range(b["arg_count"])]
+    return sorted(range(len(tys)), key=lambda i: (0 if tys[i] in (VALUE, "&" + VALUE) else 1, i))
+
+
 def operator_cells(f, path, max_paths=3000):
     b = f.bodies[path]
     n = b["arg_count"]
     tys = [f.ty_s(b["locals"][i + 1]["ty"]) for i in range(n)]
+    order = operand_order(f, path)
     doms = []
     for t in tys:
         if t in (VALUE, "&" + VALUE):
@@ -192,7 +225,10 @@ def operator_cells(f, path, max_paths=3000):
         else:
             doms.append((INDEX, f.variant_names(INDEX)))
     cells = {}
-    names = ["L", "R", "X"] if n > 1 else ["X"]
+    canon_names = ["L", "R", "X"] if n > 1 else ["X"]
+    names = [None] * n
+    for rank, i in enumerate(order):
+        names[i] = canon_names[rank]
     for combo in itertools.product(*[d[1] for d in doms]):
         it = Interp(f, max_paths=max_paths)
         st = State()
@@ -208,7 +244,7 @@ def operator_cells(f, path, max_paths=3000):
         outs = []
         for s, rv in res:
             outs.append({"conds": list(s.conds), "ret": it.resolve(s, rv), "events": list(s.events), "flags": set(s.flags)})
-        cells[combo] = outs
+        cells[tuple(combo[i] for i in order)] = outs
     return cells
 
 
